@@ -17,11 +17,11 @@ upstream graph search), the cell count for the default unit field, and its own v
 direct upstream neighbours; the two input grids hold the same values after the call; no exception. Grids with
 cycles or a reduced limit: the call returns without error.
 Cases: every grid of 1x1, 1x2, 2x1, 2x2 (thorough: also 1x3, 3x1, 2x3, 3x2) over the 8 codes, 0 (sink) and 7 (not a
-code), 3x3 over 4 codes (sampled in the quick tier); then random grids up to 8x8 (thorough 10x10): descending
+code; the quick tier samples 3 000 grids of those extra shapes), 3x3 over 4 codes (sampled in the quick tier); then random grids up to 8x8 (thorough 10x10): descending
 random-elevation forests (long chains), a snake through every cell (longest possible chain), uniformly random
 codes, planted 2-cycles and longer cycles, off-grid exits, invalid and negative codes. Fields: none (unit
 default), uniform, small positive integers, random positive floats, with zeros and negatives, containing the
-no-data value; no-data -9999, -1, 0, NaN; integer and float grids (uint8/int32/int64 flow directions). Cell limit:
+no-data value; no-data -9999, -1, 0, NaN; integer and float grids (uint8/int16/int32/int64/float flow directions). Cell limit:
 default, n, n-1, longest chain -1/0/+1, 1, 2, random; malformed stream: limit 0/-2/-7, zero rows, zero columns.
 A case is non-trivial when the grid is acyclic, run with the default limit, and has a cell that drains
 into another cell.
@@ -235,10 +235,10 @@ class Runner:
             return "downstream"
         return f"c_accumulate:{line}"
 
-    def mult(self, nrows, ncols, fd, cap):
+    def mult(self, nrows, ncols, fd, cap, fl=None):
         """how many times one source can add to one cell: 1 on an acyclic grid, up to the number of iterations on a cycle"""
         n = nrows * ncols
-        if n == 0 or Flow(nrows, ncols, fd, self.offsets).acyclic:
+        if n == 0 or (fl or Flow(nrows, ncols, fd, self.offsets)).acyclic:
             return 1
         return (n if cap is None or cap == -1 else max(int(cap), 1)) + 1
 
@@ -280,14 +280,15 @@ class Runner:
             req = f"accunit {nrows} {ncols} {self.codes_tok} {C.ilist(fd_seen)} {capm} {C.f2h(nd)}"
         else:
             req = f"acc {nrows} {ncols} {self.codes_tok} {C.ilist(fd_seen)} {capm} {C.f2h(nd)} {C.flist(fvals)}"
+        fl = Flow(nrows, ncols, fd_seen, self.offsets)
         self.reqs.append(req)
-        self.info.append((case, impl, fvals, nd, self.mult(nrows, ncols, fd_seen, cap)))
+        self.info.append((case, impl, fvals, nd, self.mult(nrows, ncols, fd_seen, cap, fl)))
         # inputs unchanged (values; the wrapper may change the dtype of the grids it was given)
         if not np.array_equal(fdg.data.astype(np.float64), fd_before.astype(np.float64)):
             ctx.finding("accumulate/input_altered/flowdir", "cell values of the flow-direction grid changed during the call", case)
         if fg is not None and not np.array_equal(fg.data.astype(np.float64), f_before.astype(np.float64), equal_nan=True):
             ctx.finding("accumulate/input_altered/field", "cell values of the accumulated field changed during the call", case)
-        self.oracle(case, nrows, ncols, fd_seen, fvals, field is None, nd, cap, impl, tag, origin)
+        self.oracle(case, nrows, ncols, fd_seen, fvals, field is None, nd, cap, impl, tag, origin, fl)
 
     # -- the extension entry point on explicit buffers (accumulation buffer independent of the field)
     def kernel_case(self, nrows, ncols, fd, fvals, nodata, cap, acc0, tag=""):
@@ -310,10 +311,9 @@ class Runner:
         ctx.count(("k", nrows, ncols, tuple(fd), tuple(fvals), tuple(acc0), cap, C.f2h(nodata)), ierr == 0 and nrows * ncols > 0,
                   f"kernel/{tag}/{'ok' if ierr == 0 else impl[1]}")
 
-    def oracle(self, case, nrows, ncols, fd, fvals, unit, nd, cap, impl, tag, origin):
+    def oracle(self, case, nrows, ncols, fd, fvals, unit, nd, cap, impl, tag, origin, fl):
         ctx = self.ctx
         n = nrows * ncols
-        fl = Flow(nrows, ncols, fd, self.offsets)
         default_cap = cap is None or cap == -1
         inside = fl.acyclic and default_cap
         nontrivial = inside and any(d >= 0 for d in fl.down)
@@ -338,7 +338,11 @@ class Runner:
         if not inside:
             return
         exact = all(v == int(v) and abs(v) < 2 ** 40 for v in fvals)
-        fx = [F(v) for v in fvals]
+        # integer-valued fields: python integers (exact, and the sums must be met exactly); else exact rationals
+        fx = [int(v) for v in fvals] if exact else [F(v) for v in fvals]
+
+        def num(v):
+            return int(v) if exact and abs(v) < 2 ** 62 and v == int(v) else F(v)
         want = {}
         for c in range(n):
             if fl.down[c] < 0:
@@ -350,7 +354,7 @@ class Runner:
             s = sum(fx[u] for u in clo)
             want[c] = s
             tol = 0 if exact else F(4 * len(clo) * EPS) * sum(abs(fx[u]) for u in clo)
-            if out[c] != out[c] or abs(F(out[c]) - s) > tol:
+            if out[c] != out[c] or abs(out[c]) == float("inf") or abs(num(out[c]) - s) > tol:
                 sig = "accumulate/unit_count" if unit else f"accumulate/upstream_sum/{fk}"
                 ctx.finding(sig, "a draining cell does not hold the sum of the field over the cells draining through it"
                             + (" (the number of such cells for the unit field)" if unit else ""),
@@ -358,12 +362,12 @@ class Runner:
         # local recurrence, on the code's own output
         for c in want:
             ups = fl.up[c]
-            if any(out[u] != out[u] for u in ups) or out[c] != out[c]:
+            if any(out[u] != out[u] or abs(out[u]) == float("inf") for u in ups + [c]):
                 continue
-            rhs = fx[c] + sum(F(out[u]) for u in ups)
+            rhs = fx[c] + sum(num(out[u]) for u in ups)
             tol = 0 if exact else F(8 * (len(ups) + 1) * EPS) * (abs(fx[c]) + sum(abs(F(out[u])) for u in ups) + abs(want[c])) \
                 + F(8 * n * EPS) * sum(abs(v) for v in fx)
-            if abs(F(out[c]) - rhs) > tol:
+            if abs(num(out[c]) - rhs) > tol:
                 ctx.finding(f"accumulate/local_recurrence/{fk}",
                             "a draining cell does not hold its own value plus the results of its direct upstream neighbours",
                             {**case, "cell": c, "got": out[c], "expected": float(rhs), "upstream": ups})
@@ -488,10 +492,17 @@ def _body(ctx, rng):
                 nd = -1.0 if kind == "unit" else -9999.0
                 R.wrapper_case(nrows, ncols, fd, gen_field(rng, n, kind, nd), nd, None, tag=f"exh{nrows}x{ncols}")
         R.flush()
+    if not ctx.thorough:
+        for _ in range(3000):
+            nrows, ncols = rng.choice([(2, 3), (3, 2), (1, 3), (3, 1)])
+            fd = [rng.choice(alphabet) for _ in range(nrows * ncols)]
+            kind = rng.choice(kinds3)
+            nd = -1.0 if kind == "unit" else -9999.0
+            R.wrapper_case(nrows, ncols, fd, gen_field(rng, nrows * ncols, kind, nd), nd, None, tag=f"smp{nrows}x{ncols}")
     # 3x3 over four codes (east, south, south-east, sink): every grid in the thorough tier
     four = [code_at[(0, 1)], code_at[(1, 0)], code_at[(1, 1)], 0]
     if ctx.thorough:
-        it3 = itertools.product(four + [code_at[(0, -1)]], repeat=9) if False else itertools.product(four, repeat=9)
+        it3 = itertools.product(four, repeat=9)
         for gi, fd in enumerate(it3):
             kind = kinds3[gi % 3]
             nd = -1.0 if kind == "unit" else -9999.0
@@ -508,7 +519,7 @@ def _body(ctx, rng):
 
     # ---- random grids
     nmax = ctx.scale(8, 10)
-    ngrids = ctx.scale(2000, 12000)
+    ngrids = ctx.scale(3000, 12000)
     for it in range(ngrids):
         if it < 30:
             nrows, ncols = [(1, 5), (5, 1), (2, 4), (4, 2), (3, 3), (1, nmax), (nmax, 1), (nmax, nmax), (2, nmax), (3, 4)][it % 10]
@@ -529,11 +540,13 @@ def _body(ctx, rng):
         fl = Flow(nrows, ncols, fd, R.offsets)
         fd_dtype = "int64"
         if all(0 <= v <= 255 for v in fd) and rng.random() < 0.3:
-            fd_dtype = rng.choice(["uint8", "int32", "int16"])
+            fd_dtype = rng.choice(["uint8", "int32", "int16", "float64", "float32"])
         for kind in rng.sample(FIELD_KINDS, 3):
             nd = rng.choice([-9999.0, -1.0, 0.0, float("nan"), -0.1]) if kind != "unit" else float(rng.choice([-1, 0, 255, -9999]))
             if kind == "unit" and fd_dtype == "uint8":
                 nd = float(rng.choice([0, 255]))
+            if kind == "unit" and fd_dtype == "int16" and nd == -9999.0:
+                nd = -1.0
             field = gen_field(rng, n, kind, nd)
             f_dtype = "float64"
             if field is not None and all(v == int(v) and abs(v) < 2 ** 31 for v in field) and nd == nd and nd == int(nd) \
